@@ -166,15 +166,15 @@ theorem text_of_segIsX : ∀ (s : Seg), segIsX s = true → s.text = '-' :: segX
     the targets in source order (files' words inlined) minus every excluded name, filtered. -/
 theorem options_from_texts (cfg : Cfg) (hD1 : cfg.fixDeleteAll = true) (hD17 : cfg.fixIterSuffix = true)
     (hD19 : cfg.fixRemoveDepth = true) (h2Br : cfg.fix2Br = true) (mode : Wcoll.LineMode) (fs : Wcoll.FS)
-    (rematch : Str → Str → Option Bool) (badre : Str → Bool) (segsW segsX : List Seg)
+    (stdin : Str) (rematch : Str → Str → Option Bool) (badre : Str → Bool) (segsW segsX : List Seg)
     (wenv : Option (Str × List Spec.Word))
     (hX : ∀ s ∈ segsX, segIsX s = true)
     (hpW : ∀ s ∈ segsW, pieceOK s.text = true) (hpX : ∀ s ∈ segsX, pieceOK (segXText s) = true)
     (hd : Spec.joinComma (segsW.map Seg.text) ≠ ['-'])
-    (hdom : targetDomain cfg mode fs rematch badre (segsW ++ segsX) wenv = true) :
-    cliFinalW cfg (envOf mode fs rematch badre (segsW ++ segsX) wenv) (wenv.map (·.1))
+    (hdom : targetDomain cfg mode fs stdin rematch badre (segsW ++ segsX) wenv = true) :
+    cliFinalW cfg (envOf mode fs stdin rematch badre (segsW ++ segsX) wenv) (wenv.map (·.1))
         [.w (Spec.joinComma (segsW.map Seg.text)), .x (Spec.joinComma (segsX.map segXText))] =
-      .ok (targetSpec (envOf mode fs rematch badre (segsW ++ segsX) wenv) (segsW ++ segsX) wenv) := by
+      .ok (targetSpec (envOf mode fs stdin rematch badre (segsW ++ segsX) wenv) (segsW ++ segsX) wenv) := by
   have hwords : ([Ev.w (Spec.joinComma (segsW.map Seg.text)),
       Ev.x (Spec.joinComma (segsX.map segXText))]).flatMap evWords = (segsW ++ segsX).map Seg.text := by
     simp only [List.flatMap_cons, List.flatMap_nil, List.append_nil]
@@ -187,7 +187,7 @@ theorem options_from_texts (cfg : Cfg) (hD1 : cfg.fixDeleteAll = true) (hD17 : c
     apply List.map_congr_left
     intro s hs
     exact (text_of_segIsX s (hX s hs)).symm
-  have h := targetList_correct cfg hD1 hD17 hD19 h2Br mode fs rematch badre (segsW ++ segsX) wenv hdom
+  have h := targetList_correct cfg hD1 hD17 hD19 h2Br mode fs stdin rematch badre (segsW ++ segsX) wenv hdom
   rw [← hwords] at h
   exact h
 
@@ -240,11 +240,11 @@ theorem w_x_from_texts (cfg : Cfg) (hD1 : cfg.fixDeleteAll = true) (hD17 : cfg.f
     (hD19 : cfg.fixRemoveDepth = true) (h2Br : cfg.fix2Br = true) (W X : List Spec.Word)
     (hW : ∀ w ∈ W, w.WF = true) (hne : W ≠ []) (hpX : ∀ w ∈ X, pieceOK (Spec.renderWord w) = true)
     (hd : Spec.joinComma (W.map Spec.renderWord) ≠ ['-'])
-    (hdom : targetDomain cfg .whole [] (fun _ _ => none) (fun _ => false) (wSegs W ++ xSegs X) none = true) :
-    cliFinal cfg (envOf .whole [] (fun _ _ => none) (fun _ => false) (wSegs W ++ xSegs X) none)
+    (hdom : targetDomain cfg .whole [] [] (fun _ _ => none) (fun _ => false) (wSegs W ++ xSegs X) none = true) :
+    cliFinal cfg (envOf .whole [] [] (fun _ _ => none) (fun _ => false) (wSegs W ++ xSegs X) none)
         [.w (Spec.joinComma (W.map Spec.renderWord)), .x (Spec.joinComma (X.map Spec.renderWord))] =
       .ok ((Spec.expand₂ W).filter fun h => !(Spec.expand₁ X).contains h) := by
-  have h := options_from_texts cfg hD1 hD17 hD19 h2Br .whole [] (fun _ _ => none) (fun _ => false)
+  have h := options_from_texts cfg hD1 hD17 hD19 h2Br .whole [] [] (fun _ _ => none) (fun _ => false)
     (wSegs W) (xSegs X) none
     (by intro s hs; unfold xSegs at hs; obtain ⟨w, _, rfl⟩ := List.mem_map.mp hs; rfl)
     (by intro s hs; unfold wSegs at hs; obtain ⟨w, hw, rfl⟩ := List.mem_map.mp hs
@@ -274,11 +274,11 @@ theorem wfile_from_texts (cfg : Cfg) (hD1 : cfg.fixDeleteAll = true) (hD17 : cfg
     (hD19 : cfg.fixRemoveDepth = true) (h2Br : cfg.fix2Br = true) (mode : Wcoll.LineMode) (fs : Wcoll.FS)
     (path : Str) (ws X : List Spec.Word) (hpp : pieceOK ('^' :: path) = true)
     (hpX : ∀ w ∈ X, pieceOK (Spec.renderWord w) = true)
-    (hdom : targetDomain cfg mode fs (fun _ _ => none) (fun _ => false) ([Seg.tfile path ws] ++ xSegs X) none = true) :
-    cliFinal cfg (envOf mode fs (fun _ _ => none) (fun _ => false) ([Seg.tfile path ws] ++ xSegs X) none)
+    (hdom : targetDomain cfg mode fs [] (fun _ _ => none) (fun _ => false) ([Seg.tfile path ws] ++ xSegs X) none = true) :
+    cliFinal cfg (envOf mode fs [] (fun _ _ => none) (fun _ => false) ([Seg.tfile path ws] ++ xSegs X) none)
         [.w ('^' :: path), .x (Spec.joinComma (X.map Spec.renderWord))] =
       .ok ((Spec.expand₂ ws).filter fun h => !(Spec.expand₁ X).contains h) := by
-  have h := options_from_texts cfg hD1 hD17 hD19 h2Br mode fs (fun _ _ => none) (fun _ => false)
+  have h := options_from_texts cfg hD1 hD17 hD19 h2Br mode fs [] (fun _ _ => none) (fun _ => false)
     [Seg.tfile path ws] (xSegs X) none
     (by intro s hs; unfold xSegs at hs; obtain ⟨w, _, rfl⟩ := List.mem_map.mp hs; rfl)
     (by intro s hs; simp only [List.mem_singleton] at hs; subst hs; exact hpp)
